@@ -222,6 +222,7 @@ def run_harness(model, seed, n, outdir, extra=None, timeout=3000):
     cmd = [os.path.join(BIN, "nibiru-harness"), model, "-seed", str(seed), "-n", str(n), "-out", outdir] + (extra or [])
     env = go_env()
     env.setdefault("GOMEMLIMIT", "12GiB")
+    env.setdefault("VERIF_CORPUS", os.path.join(VERIF, "corpus"))
     rc, out, dt = sh(cmd, env=env, timeout=timeout, cwd=outdir)
     return rc, out, dt
 
